@@ -43,6 +43,18 @@ T = {
  "C26-b": ("tls/key_schedule.go exportKeyingMaterial: Derive-Secret transcript is Hash(context) instead of Hash(\"\")", "a TLS 1.3 exporter call with a non-empty context", "tls"),
  "C30-b": ("tls/handshake_messages.go certificateRequestMsg.unmarshal: 'len(cas) < 2' became 'len(cas) <= 2'", "a CertificateRequest whose last certificate-authority name is empty", "tls"),
  "C32-b": ("tls/key_agreement.go ecdheKeyAgreement.processServerKeyExchange: the 'len(sig) < 2' check runs before the signature-and-hash bytes are stripped", "a TLS 1.2 ECDHE ServerKeyExchange that ends at or one byte after the signature-and-hash bytes: index out of range", "tls"),
+ "C01-b": ("tls/handshake_messages.go certificateRequestMsg.unmarshal: the signature-algorithm list bound compares the remaining length with the entry count instead of the byte length", "a TLS 1.2 CertificateRequest whose signature-algorithm list length L satisfies L/2 <= remaining bytes < L: index out of range", "tls"),
+ "C03-b": ("x509/x509.go CreateCertificate: the RSA-PSS signer options follow parent.SignatureAlgorithm instead of template.SignatureAlgorithm", "an RSA issuer whose own certificate and the template disagree on RSA-PSS vs PKCS #1 v1.5", "x509"),
+ "C07-b": ("x509/verify.go checkChainForKeyUsage: the defensive copy of the requested-usage list was dropped (usages crossed out in place)", "two or more candidate chains where an earlier one fails the EKU check and a later one also lacks the usage", "x509"),
+ "C09-b": ("x509/verify.go VerifyHostname: 'if c.hasSANExtension()' became 'if len(c.DNSNames) > 0'", "a certificate with a SAN extension that has no DNS names (IP/email only) and a CommonName matching the host", "x509"),
+ "C12-b": ("verifier/verifier.go VerifyWithContext: the CRLSet check became an else-branch of the OneCRL check", "both a OneCRL and a CRLSet supplied, the OneCRL not listing the certificate and the CRLSet listing it", "verifier"),
+ "C13-b": ("x509/revocation/ocsp/ocsp.go CreateResponse: responder name taken from issuer.RawSubject instead of responderCert.RawSubject", "a delegated responder whose subject differs from the issuer's", "x509/revocation/ocsp"),
+ "C18-b": ("encoding/asn1/asn1.go parseUTCTime: 'ret.Year() >= 2050' became '> 2050'", "a time.Time in the year 1950 marshalled as UTCTime: decodes as 2050", "encoding/asn1"),
+ "C19-b": ("cryptobyte/asn1.go checkASN1Integer: negative-padding test 'bytes[1]&0x80 == 0x80' became 'bytes[1] > 0x80'", "a negative INTEGER padded with 0xff whose second content octet is exactly 0x80 (02 02 ff 80)", "cryptobyte"),
+ "C21-b": ("cryptobyte/asn1.go asn1Signed: 'length > 8' became 'length >= 8'", "a signed value needing exactly 8 content octets (|v| >= 2^55)", "cryptobyte"),
+ "C25-b": ("tls/conn.go halfConn.decrypt: TLS 1.3 padding scan 'i >= 0' became 'i > 0'", "a TLS 1.3 record with zero content bytes (or an all-zero inner plaintext)", "tls"),
+ "C28-b": ("tls/tls_handshake.go clientHelloMsg.MakeLog: session-ticket buffer sized from len(m.sessionId)", "a ClientHello offering a session ticket longer than the session id", "tls"),
+ "C29-b": ("tls/handshake_client.go ClientFingerprintConfiguration.marshal: cipher-suite list length high byte computed with >> 8 instead of >> 7", "a fingerprint configuration with 128 or more cipher suites", "tls"),
  "C32-a": ("tls/conn.go readRecordOrCCS: 'len(data) != 1' became 'len(data) > 1' for change_cipher_spec", "a change_cipher_spec record with an empty body after the version is fixed: index out of range", "tls"),
 }
 res = {}
